@@ -74,6 +74,8 @@ pub struct DiskIO { _p: () }
 impl DiskIO {
     #[verifier::external_body]
     pub fn write_store_metadata(&mut self, metadata: &mut Metadata) -> Result<()> { unimplemented!() }
+    #[verifier::external_body]
+    pub fn shutdown(&mut self) { unimplemented!() }
 }
 #[verifier::external_body]
 pub struct DiskLock { _p: () }
@@ -88,6 +90,11 @@ pub struct WriteBufferH { _p: () }
 impl WriteBufferH {
     pub uninterp spec fn flush_succeeds(&self) -> bool;
     #[verifier::external_body]
+    pub fn initiate_shutdown(&self) { unimplemented!() }
+    // joins the workers (each runs its bounded final flush: unit worker_loop)
+    #[verifier::external_body]
+    pub fn finish_shutdown(&self) { unimplemented!() }
+    #[verifier::external_body]
     pub fn force_flush(&self) -> (r: Result<()>)
         ensures (r is Ok) == self.flush_succeeds(),
     {
@@ -95,8 +102,29 @@ impl WriteBufferH {
     }
 }
 
+// the TTL sweeper slot (Drop stops it first)
+#[verifier::external_body]
+pub struct SweeperH { _p: () }
+impl SweeperH {
+    #[verifier::external_body]
+    pub fn stop(&mut self) { unimplemented!() }
+}
+#[verifier::external_body]
+pub struct SweeperSlot { _p: () }
+#[verifier::external_body]
+pub struct SweeperGuard { _p: () }
+impl SweeperSlot {
+    #[verifier::external_body]
+    pub fn write(&self) -> SweeperGuard { unimplemented!() }
+}
+impl SweeperGuard {
+    #[verifier::external_body]
+    pub fn take(&mut self) -> Option<SweeperH> { unimplemented!() }
+}
 pub struct FeoxStore {
     pub initialized: bool,
+    pub read_only: bool,
+    pub ttl_sweeper: SweeperSlot,
     pub memory_only: bool,
     pub write_buffer: Option<WriteBufferH>,
     pub disk_io: Option<DiskLock>,
